@@ -2433,3 +2433,535 @@ def r04_10(ctx):
                 "(or forged) behind the FIN are delivered to the application ahead of the end-of-stream indication", body=b, bb=bad[0][0])
     else:
         ctx.ok(('process', 'no data after FIN'), sample=dict(fn='process', guard='rx_fin_received was false when the segment arrived'))
+
+
+@rule('R11.10', ['C11', 'C09'], floor=1, clause='a UDP socket that is not bound (its port is 0) matches no datagram: UdpRepr::parse answers Ok only for a non-zero destination port, or udp::Socket::accepts itself tests its own port against 0')
+def r11_10(ctx):
+    F = ctx.F
+    p = ctx.method('wire::udp::Repr', 'parse')
+    sites = [x[0] for x in agg_sites(p, 'std::result::Result', ['Ok'])]
+    ctx.need(sites, "Ok(..) construction in udp::Repr::parse")
+    nz = lambda f: f[0] == 'rel' and f[1] in ('Ne', 'Gt', 'Lt') and any(is_call(strip(x), '::dst_port') for x in (f[2], f[3])) and any(const_of(strip(y)) == 0 for y in (f[2], f[3]))
+    bad = unguarded(F, p, sites, nz)
+    if not bad:
+        ctx.ok(('udp::Repr::parse', 'dst_port != 0'), sample=dict(fn='udp::Repr::parse', requires='dst_port() != 0'))
+        return
+    a = ctx.method('socket::udp::Socket', 'accepts')
+    own = lambda f: f[0] == 'rel' and any(any(l.endswith('endpoint.port') for l in leafs(x)) for x in (f[2], f[3])) and any(const_of(strip(y)) == 0 for y in (f[2], f[3]))
+    if guard_edges(F, a, own):
+        ctx.ok(('udp::Socket::accepts', 'port != 0'), sample=dict(fn='udp::Socket::accepts', tests='endpoint.port against 0'))
+        return
+    ctx.bad("udp::Repr::parse|dst-port-zero", "udp::Repr::parse answers Ok for a datagram whose destination port is 0 and udp::Socket::accepts compares it with the socket's own port "
+            "without excluding 0: every UDP socket that is not bound (never bound, or closed) receives such a datagram", body=p, bb=bad[0][0], path=bad[0][1])
+
+
+@rule('R12.10', ['C12', 'C20', 'C09'], floor=2, clause='whether an oversize datagram fits the fragmentation buffer is decided on the length that is stored there (the IP datagram / the uncompressed 6LoWPAN size recorded as packet_len), not on a length that also counts link-layer framing')
+def r12_10(ctx):
+    F = ctx.F
+    FR = 'iface::fragmentation::Fragmenter'
+    n = 0
+    for b in [ctx.method(IFI, 'dispatch_ip')] + [F.bodies[k] for k in F.bodies if k.endswith('::dispatch_sixlowpan')]:
+        pl = [w for w in F.field_writes() if w['fn'] == b.key and w['kind'] == 'store' and w['adt'] == FR and w['field'] == 'packet_len']
+        stored = [strip(simplify(store_origin(F, b, w))) for w in pl]
+        stored = [s for s in stored if const_int(s) != 0]
+        if not stored:
+            continue
+        rels = []
+        for bi, bl in enumerate(b.blocks):
+            if bl['cl'] or bl['t'][0] != 'switch':
+                continue
+            for tb, lab, f in cond_facts(F, b, bi):
+                if f[0] != 'rel' or f[1] not in ('Lt', 'Ge', 'Le', 'Gt'):
+                    continue
+                for x, y in ((f[2], f[3]), (f[3], f[2])):
+                    sx = strip(x)
+                    if is_call(sx, '::len', nargs=1) and any(l.endswith('.buffer') for l in leafs(sx)) and not any(l.endswith('.buffer') for l in leafs(y)):
+                        rels.append((bi, strip(simplify(y))))
+        if not rels:
+            continue
+        n += 1
+        short = b.key.rsplit('::', 1)[-1]
+        for bi, other in rels:
+            if any(_same_expr(other, s) for s in stored):
+                ctx.ok((short, 'fits-test on packet_len'), sample=dict(fn=short, compares='frag.buffer.len()', with_=show(other)[:80]))
+            else:
+                ctx.bad(f"{short}|frag-fit-test-other-length", f"{short} decides whether the datagram fits the fragmentation buffer on `{show(other)[:90]}`, which is not the length it then stores there "
+                        f"(packet_len = `{show(stored[0])[:90]}`): datagrams that fit are dropped silently, or one that does not fit is written past the buffer", body=b, bb=bi)
+    ctx.need(n >= 2, "fits-the-buffer tests next to packet_len stores (dispatch_ip, dispatch_sixlowpan)")
+
+
+@rule('R14.10', ['C14', 'C09'], floor=2, clause='PacketBuffer::is_empty / is_full answer from the ring that counts packets (the metadata ring): a queued packet with an empty payload occupies no payload space but is still a queued packet')
+def r14_10(ctx):
+    F = ctx.F
+    PB = 'storage::packet_buffer::PacketBuffer'
+    for nm in ('is_empty', 'is_full'):
+        b = ctx.method(PB, nm)
+        r = strip(simplify(ret_origin(F, b)))
+        ls = leafs(r)
+        meta = any(l.endswith('metadata_ring') or '.metadata_ring.' in l for l in ls)
+        pay = any(l.endswith('payload_ring') or '.payload_ring.' in l for l in ls)
+        if not meta and not pay:
+            ctx.note(f"PacketBuffer::{nm}: answer is not a function of either ring ({show(r)[:80]}) - not decided")
+            ctx.need(False, f"PacketBuffer::{nm} answering from a ring")
+        if meta:
+            ctx.ok((nm, 'metadata ring'), sample=dict(fn=f'PacketBuffer::{nm}', answers_from=show(r)[:80]))
+        else:
+            ctx.bad(f"PacketBuffer::{nm}|payload-ring-only", f"PacketBuffer::{nm} answers from the payload ring alone ({show(r)[:80]}): with zero-length packets queued (or padding in the payload ring) "
+                    "the answer differs from the number of queued packets", body=b)
+
+
+@rule('R13.13', ['C13', 'C16', 'C02'], floor=5, clause='every Interface entry point that is given the current time records it (inner.now = timestamp, or hands it to an entry point that does) before it does anything else: no timer, neighbor-cache or route decision is taken against the clock of an earlier call')
+def r13_13(ctx):
+    F = ctx.F
+    IF = 'iface::interface::Interface'
+    II = 'iface::interface::InterfaceInner'
+    entries = {}
+    for k, b in F.bodies.items():
+        if not k.startswith(IF + '::') or '{closure' in k or k.count('::') != IF.count('::') + 1:
+            continue
+        targs = [i for i in range(1, b.nargs + 1) if b.locals[i]['ty'] == 'time::Instant']
+        if targs and b.locals[1]['ty'].startswith('&mut ' + IF):
+            entries[k] = (b, targs)
+    ctx.need(len(entries) >= 5, f"Interface methods taking the current time (found {len(entries)})")
+    good = {}
+
+    def stores(b, targs):
+        out = set()
+        for w in F.field_writes():
+            if w['fn'] == b.key and w['kind'] == 'store' and w['adt'] == II and w['field'] == 'now':
+                o = strip(simplify(store_origin(F, b, w)))
+                if o[0] == 'arg' and o[1] in targs:
+                    out.add(w['bb'])
+        return out
+    for _ in range(3):
+        for k, (b, targs) in entries.items():
+            cut = stores(b, targs)
+            for x in b.calls():
+                cn = b.callee_name(x[1]) or ''
+                if cn in good:
+                    # delegates the same timestamp
+                    args = [strip(simplify(F.origin.operand(b, a, x[0], len(b.blocks[x[0]]['s'])))) for a in x[2]]
+                    if any(a[0] == 'arg' and a[1] in targs for a in args):
+                        cut.add(x[0])
+            seen = set() if 0 in cut else b.reachable(cut_blocks=cut)
+            early = [x for x in b.calls() if x[0] in seen and x[0] not in cut and ((b.callee_name(x[1]) or '').startswith(('iface::', 'socket::', 'phy::', 'storage::')))]
+            rets = [r for r in b.return_blocks() if r in seen and r not in cut]
+            good[k] = not early and not rets
+            entries[k] = (b, targs)
+            b._r1313 = (early, rets)
+    for k, (b, targs) in sorted(entries.items()):
+        nm = k.rsplit('::', 1)[-1]
+        if good[k]:
+            ctx.ok((nm, 'records now first'), sample=dict(fn='Interface::' + nm, first='inner.now = timestamp'))
+        else:
+            early, rets = b._r1313
+            bb = early[0][0] if early else rets[0]
+            ctx.bad(f"Interface::{nm}|clock-not-recorded", f"Interface::{nm} can act (call into the stack / return) without first recording the timestamp it was given in inner.now: "
+                    "timers, neighbor-cache expiry, route expiry and rate limits are then evaluated against the time of some earlier call", body=b, bb=bb)
+
+
+@rule('R16.11', ['C16', 'C03'], floor=1, clause='the neighbor cache is consulted only for the next hop the routing decision produced: every Cache::lookup in lookup_hardware_addr is keyed by the result of route(), never by the raw destination')
+def r16_11(ctx):
+    F = ctx.F
+    b = ctx.method(IFI, 'lookup_hardware_addr')
+    n = 0
+    for x in b.calls():
+        cn = b.callee_name(x[1]) or ''
+        if not cn.endswith('neighbor::Cache::lookup'):
+            continue
+        n += 1
+        key = strip(simplify(F.origin.operand(b, x[2][1], x[0], len(b.blocks[x[0]]['s']))))
+
+        def routed(nd):
+            nd = strip(nd)
+            if nd[0] == 'phi':
+                return all(routed(a) for a in nd[1])
+            return any(c[0] == 'call' and c[1].endswith('InterfaceInner::route') for c in _calls_in(nd))
+        if routed(key):
+            ctx.ok(('lookup_hardware_addr', 'cache keyed by route()'), sample=dict(call='neighbor_cache.lookup', key=show(key)[:90]))
+        else:
+            ctx.bad("lookup_hardware_addr|cache-before-route", f"lookup_hardware_addr consults the neighbor cache with `{show(key)[:90]}`, which is not (on every path) the next hop chosen by route(): "
+                    "a cached entry for an off-link address (learned from a packet that address sent on this link) bypasses the gateway of the matching route", body=b, bb=x[0])
+    ctx.need(n >= 1, "neighbor_cache.lookup in lookup_hardware_addr")
+
+
+@rule('R18.10', ['C18', 'C13'], floor=6, clause='the lease instants the client keeps are exactly the ones parse_ack computed from the most recent ACK: renew_at, rebind_at and expires_at are stored (in the Requesting and in the Renewing arm) as the corresponding element of parse_ack\'s answer, not combined with what an earlier lease left behind')
+def r18_10(ctx):
+    F = ctx.F
+    D = 'socket::dhcpv4::Socket'
+    RS = 'socket::dhcpv4::RenewState'
+    b = ctx.method(D, 'process')
+    idx = {'renew_at': '1', 'rebind_at': '2', 'expires_at': '3'}
+
+    def judge(fld, o, bb):
+        o = strip(simplify(o))
+        okp = o[0] == 'proj' and is_call(o[1], '::parse_ack') and [e[1] for e in o[2] if e[0] == 'f'][-1:] == [idx[fld]]
+        if okp:
+            ctx.ok(('process', fld, bb), sample=dict(field=fld, stored=f"parse_ack(..).{idx[fld]}"))
+        else:
+            ctx.bad(f"dhcpv4::process|{fld}|not-the-acked-value", f"dhcpv4 process() stores `{show(o)[:100]}` as {fld} instead of the value parse_ack computed from this ACK: "
+                    "the lease kept differs from the one the most recent ACK granted (an address can be reported past its lease, or renewal happen at the wrong time)", body=b, bb=bb)
+    n = 0
+    for w in F.field_writes():
+        if w['fn'] == b.key and w['kind'] == 'store' and w['adt'] == RS and w['field'] in idx:
+            n += 1
+            judge(w['field'], store_origin(F, b, w), w['bb'])
+    for bi, si, var in agg_sites(b, RS):
+        s = b.blocks[bi]['s'][si]
+        names = s[2][1].get('fnames') or []
+        ops = s[2][2]
+        ctx.need(len(names) == len(ops), "field names of the RenewState aggregate")
+        for i, op in enumerate(ops):
+            nm = names[i]
+            if nm in idx:
+                n += 1
+                judge(nm, F.origin.operand(b, op, bi, si), bi)
+    ctx.need(n >= 6, f"stores of the three lease instants in dhcpv4 process() (found {n})")
+
+
+@rule('R13.14', ['C13', 'C16'], floor=1, clause='Meta::neighbor_missing starts a fresh back-off on every call: on every path it stores NeighborState::Waiting with silent_until = the timestamp it was given plus a positive constant (an early return would leave an already expired silence in place and poll_at would keep answering a past instant)')
+def r13_14(ctx):
+    F = ctx.F
+    M = 'iface::socket_meta::Meta'
+    NS = 'iface::socket_meta::NeighborState'
+    b = ctx.method(M, 'neighbor_missing')
+    good = set()
+    for bi, si, var in agg_sites(b, NS, ['Waiting']):
+        s = b.blocks[bi]['s'][si]
+        names = s[2][1].get('fnames') or []
+        ctx.need('silent_until' in names, "field names of NeighborState::Waiting")
+        o = strip(simplify(F.origin.operand(b, s[2][2][names.index('silent_until')], bi, si)))
+        ls = leafs(o)
+        if 'A:2' in ls and not any(l.startswith('F:') for l in ls):
+            # the aggregate must be what is stored into self.neighbor_state
+            good.add(bi)
+    ws = {w['bb'] for w in F.field_writes() if w['fn'] == b.key and w['kind'] == 'store' and w['adt'] == M and w['field'] == 'neighbor_state'}
+    ctx.need(ws, "store to Meta.neighbor_state in neighbor_missing")
+    cut = {w for w in ws if any(g in b.reachable(cut_blocks={w}) or g == w for g in good)} if good else set()
+    seen = b.reachable(cut_blocks=cut) if 0 not in cut else set()
+    rets = [r for r in b.return_blocks() if r in seen and r not in cut]
+    if good and not rets:
+        ctx.ok(('neighbor_missing', 'always re-arms'), sample=dict(fn='Meta::neighbor_missing', stores='Waiting { silent_until: timestamp + DISCOVERY_SILENT_TIME }', on='every path'))
+    else:
+        ctx.bad("Meta::neighbor_missing|back-off-not-rearmed", "Meta::neighbor_missing can return without storing a fresh silence interval computed from its timestamp: once the previous "
+                "silence has run out, the socket's poll_at keeps answering an instant in the past while the neighbor cache's own rate limit lets nothing be sent - the event loop spins",
+                body=b, bb=(rets or [0])[0])
+
+
+@rule('R20.7', ['C20', 'C06'], floor=1, clause='6LoWPAN IPHC elides the upper 64 bits of an address only when they are exactly fe80::/64 - the prefix the decompressor puts back: AddressExt::is_link_local (the test the compressor uses) compares all of the first eight octets with fe80:0:0:0')
+def r20_7(ctx):
+    F = ctx.F
+    ks = [k for k in F.bodies if k.endswith('wire::ipv6::AddressExt>::is_link_local')]
+    ctx.need(ks, "AddressExt::is_link_local")
+    b = F.bodies[ks[0]]
+    users = [k for k, ub in F.bodies.items() if 'sixlowpan::iphc' in k and any((ub.callee_name(x[1]) or '') == ks[0] for x in ub.calls())]
+    ctx.need(len(users) >= 2, "is_link_local() tests in the IPHC compressor")
+    r = strip(simplify(ret_origin(F, b)))
+    verdict = None
+    if r[0] == 'call' and r[1].endswith('::eq') and len(r[2]) == 2:
+        for x, y in ((r[2][0], r[2][1]), (r[2][1], r[2][0])):
+            x, y = strip(x), strip(y)
+            if y[0] == 'agg' and y[1] == 'array' and is_call(x, '::index') and len(x[2]) == 2:
+                src, rng = strip(x[2][0]), strip(x[2][1])
+                consts = [const_of(c) for c in y[2]]
+                width = 8 if is_call(src, '::octets') else 16 if is_call(src, '::segments') else None
+                if width is None or None in consts or not (rng[0] == 'agg' and 'Range' in rng[1]):
+                    continue
+                bounds = [const_of(c) for c in rng[2]]
+                want = [0xfe, 0x80, 0, 0, 0, 0, 0, 0] if width == 8 else [0xfe80, 0, 0, 0]
+                verdict = bounds == [0, len(want)] and consts == want
+    if verdict is None and any(n[1].endswith('is_unicast_link_local') for n in _calls_in(r)):
+        verdict = False
+    ctx.need(verdict is not None, f"is_link_local as a comparison of the leading octets with a constant prefix (found `{show(r)[:80]}`)")
+    if verdict:
+        ctx.ok(('is_link_local', 'fe80::/64'), sample=dict(fn='AddressExt::is_link_local', tests='octets()[0..8] == fe80:0:0:0', used_by=len(users)))
+    else:
+        ctx.bad("ipv6::is_link_local|not-the-elided-prefix", f"AddressExt::is_link_local answers `{show(r)[:90]}`, which holds for addresses whose first 64 bits are not fe80:0:0:0; the IPHC compressor "
+                "elides those 64 bits on that answer and the decompressor rebuilds fe80::<iid>: the datagram arrives with a different address", body=b)
+
+
+def _rforms(n):
+    """value of a Duration expression as ('min'|'max'|'one', [linear forms]); a linear form is {atom: Fraction}
+    (constant under the key 1); integer division is treated as exact (callers use it only in the direction where
+    rounding down helps or does not matter).  None = not understood."""
+    from fractions import Fraction
+    n = strip(n)
+
+    def comb(a, b, sb):
+        out = {}
+        for k, v in a.items():
+            out[k] = out.get(k, 0) + v
+        for k, v in b.items():
+            out[k] = out.get(k, 0) + sb * v
+        return {k: v for k, v in out.items() if v != 0}
+    if n[0] == 'call':
+        nm = n[1]
+        args = [strip(a) for a in n[2]]
+        if re.search(r'ops::(Add|Sub)(<[^>]*>)?>::(add|sub)$', nm):
+            a, b = _rforms(args[0]), _rforms(args[1])
+            if a is None or b is None:
+                return None
+            sb = 1 if nm.endswith('::add') else -1
+            if b[0] != 'one':
+                bk = b[0] if sb == 1 else ('max' if b[0] == 'min' else 'min')
+            else:
+                bk = 'one'
+            kinds = {a[0], bk} - {'one'}
+            if len(kinds) > 1:
+                return None
+            return ((kinds or {'one'}).pop(), [comb(x, y, sb) for x in a[1] for y in b[1]])
+        if ('ops::Mul<' in nm and nm.endswith('::mul')) or ('ops::Div<' in nm and nm.endswith('::div')):
+            a, c = _rforms(args[0]), const_of(args[1])
+            if a is None or not c or c < 0:
+                return None
+            f = Fraction(c) if nm.endswith('::mul') else Fraction(1, c)
+            return (a[0], [{k: v * f for k, v in x.items()} for x in a[1]])
+        if nm.endswith('Ord::min') or nm.endswith('Ord::max'):
+            a, b = _rforms(args[0]), _rforms(args[1])
+            kind = 'min' if nm.endswith('min') else 'max'
+            if a is None or b is None or {a[0], b[0]} - {'one', kind}:
+                return None
+            return (kind, a[1] + b[1])
+    c = const_of(n)
+    if c is not None:
+        return ('one', [{1: Fraction(c)}] if c else [{}])
+    return ('one', [{n: Fraction(1)}])
+
+
+def _in_cone(goal, gens):
+    """is `goal` a non-negative combination of the generator forms?  (exact, Caratheodory over subsets)"""
+    from fractions import Fraction
+    from itertools import combinations
+    keys = sorted({k for g in gens + [goal] for k in g}, key=repr)
+    if not any(goal.values()):
+        return True
+    vec = lambda f: [Fraction(f.get(k, 0)) for k in keys]
+    gv = [vec(g) for g in gens]
+    t = vec(goal)
+    for r in range(1, min(len(keys), len(gens)) + 1):
+        for sub in combinations(range(len(gens)), r):
+            # solve sum lam_i * gv[sub_i] = t
+            m = [[gv[i][row] for i in sub] + [t[row]] for row in range(len(keys))]
+            piv = []
+            rr = 0
+            for col in range(r):
+                p = next((q for q in range(rr, len(m)) if m[q][col] != 0), None)
+                if p is None:
+                    break
+                m[rr], m[p] = m[p], m[rr]
+                pv = m[rr][col]
+                m[rr] = [x / pv for x in m[rr]]
+                for q in range(len(m)):
+                    if q != rr and m[q][col] != 0:
+                        fq = m[q][col]
+                        m[q] = [x - fq * y for x, y in zip(m[q], m[rr])]
+                piv.append(col)
+                rr += 1
+            else:
+                if all(all(x == 0 for x in row[:-1]) and row[-1] == 0 for row in m[rr:]) and all(m[i][-1] >= 0 for i in range(rr)):
+                    return True
+    return False
+
+
+@rule('R18.11', ['C18', 'C13'], floor=4, clause='renewal comes before rebinding before expiry whatever the server sends: for every way parse_ack chooses (T1, T2) - both options, one of them, neither - T1 <= T2 <= lease follows from the tests on that path (shown by exact linear arithmetic over the option values)')
+def r18_11(ctx):
+    F = ctx.F
+    D = 'socket::dhcpv4::Socket'
+    b = ctx.method(D, 'parse_ack')
+    r = simplify(ret_origin(F, b))
+    tup = None
+    for a in alts(r):
+        if a[0] == 'agg' and a[1].endswith('Option::Some') and a[2] and strip(a[2][0])[0] == 'agg':
+            tup = strip(a[2][0])
+    ctx.need(tup is not None and len(tup[2]) == 4, "parse_ack returns Some((config, renew_at, rebind_at, expires_at))")
+    exp = _rforms(strip(tup[2][3]))
+    ctx.need(exp is not None and exp[0] == 'one' and len(exp[1][0]) == 2, "expires_at = now + lease")
+    lease = [k for k in exp[1][0] if not (isinstance(k, tuple) and k[0] == 'arg')]
+    ctx.need(len(lease) == 1, "the lease term of expires_at")
+    L = {lease[0]: 1}
+    # hypotheses per switch edge
+    hyps = []
+    for bi, bl in enumerate(b.blocks):
+        if bl['cl'] or bl['t'][0] != 'switch':
+            continue
+        for tb, lab, f in cond_facts(F, b, bi):
+            if f[0] == 'rel' and f[1] in ('Lt', 'Le', 'Gt', 'Ge'):
+                x, y = _rforms(simplify(f[2])), _rforms(simplify(f[3]))
+                if x and y and x[0] == y[0] == 'one':
+                    lo, hi = (x[1][0], y[1][0]) if f[1] in ('Lt', 'Le') else (y[1][0], x[1][0])
+                    h = dict(hi)
+                    for k, v in lo.items():
+                        h[k] = h.get(k, 0) - v
+                    hyps.append(((bi, tb, lab), {k: v for k, v in h.items() if v != 0}))
+    n = 0
+    for bi, bl in enumerate(b.blocks):
+        if bl['cl']:
+            continue
+        for si, s in enumerate(bl['s']):
+            if not (s[0] == 'a' and s[2][0] == 'agg' and s[2][1].get('k') == 'tuple' and len(s[2][2]) == 2):
+                continue
+            if not all(is_place_op(o) and b.locals[o[1][0]]['ty'] == 'time::Duration' for o in s[2][2]):
+                continue
+            n += 1
+            t1 = _rforms(simplify(F.origin.operand(b, s[2][2][0], bi, si)))
+            t2 = _rforms(simplify(F.origin.operand(b, s[2][2][1], bi, si)))
+            if t1 is None or t2 is None:
+                ctx.need(False, f"(T1, T2) at line {b.block_line(bi)} as linear arithmetic over the option values")
+            here = [h for e, h in hyps if bi not in b.reachable(cut_edges={e})]
+            atoms = {k for f_ in t1[1] + t2[1] + [L] + here for k in f_ if k != 1}
+            gens = here + [{a: 1} for a in atoms] + [{1: 1}]
+
+            def ge(hi, lo):
+                """hi >= lo, hi/lo = (kind, forms)"""
+                def diff(x, y):
+                    d = dict(x)
+                    for k, v in y.items():
+                        d[k] = d.get(k, 0) - v
+                    return {k: v for k, v in d.items() if v != 0}
+                # hi = min(..) needs all, hi = max(..) any; lo = min(..) any, lo = max(..) all
+                qh = all if hi[0] in ('min', 'one') else any
+                ql = all if lo[0] in ('max', 'one') else any
+                return qh(ql(_in_cone(diff(x, y), gens) for y in lo[1]) for x in hi[1])
+            c1, c2 = ge(t2, t1), ge(('one', [L]), t2)
+            if c1 and c2:
+                ctx.ok(('parse_ack', 'T1<=T2<=lease', bi), sample=dict(line=b.block_line(bi), shown='T1 <= T2 <= lease', from_tests=len(here)))
+            else:
+                what = 'T2 >= T1' if not c1 else 'T2 <= lease'
+                ctx.bad(f"parse_ack|timer-order|{'t1-t2' if not c1 else 't2-lease'}", f"parse_ack chooses (T1, T2) at line {b.block_line(bi)} such that {what} does not follow from the tests on that path: "
+                        "rebinding can be scheduled before renewal (poll_at then reports an instant at which nothing is sent) or after the lease has run out", body=b, bb=bi)
+    ctx.need(n >= 4, f"(T1, T2) choices in parse_ack (found {n})")
+
+
+def _lin_c(F, node):
+    """linear form of an index expression with calls of constant-returning functions folded: ({atom: coef}, const)"""
+    def fold(n):
+        if not isinstance(n, tuple) or not n:
+            return n
+        if n[0] == 'call':
+            cb = F.bodies.get(n[1])
+            c = cb.const_return() if cb is not None else None
+            if c is not None:
+                return ('const', str(c))
+            return ('call', n[1], tuple(fold(a) for a in n[2]))
+        if n[0] in ('bin',):
+            return (n[0], n[1], fold(n[2]), fold(n[3]))
+        if n[0] in ('cast', 'ref', 'un'):
+            return n[:-1] + (fold(n[-1]),)
+        return n
+    return lin(fold(strip(simplify(node))))
+
+
+def _canon_root(n):
+    n = strip(n)
+    while n[0] in ('ref', 'deref') or (n[0] == 'field' and n[2] == ()):
+        n = strip(n[1]) if n[0] != 'field' else n[1]
+    if n[0] == 'phi':
+        xs = []
+        for a in n[1]:
+            a = _canon_root(a)
+            if a not in xs:
+                xs.append(a)
+        return xs[0] if len(xs) == 1 else ('phi', tuple(xs))
+    return n
+
+
+def _slice_reach(F, recv, rng):
+    """(root, reach) of `recv[rng]` following chains `buf[a..][..n]`: reach = the largest position that must
+    not exceed root.len(), as a linear form; None when a bound is not understood"""
+    def add(x, y):
+        d = dict(x[0])
+        for k, v in y[0].items():
+            d[k] = d.get(k, 0) + v
+        return ({k: v for k, v in d.items() if v}, x[1] + y[1])
+    base = ({}, 0)
+    r = strip(recv)
+    rr = _canon_root(r)
+    if rr[0] == 'call' and re.search(r'::index(_mut)?$', rr[1]) and len(rr[2]) == 2:
+        inner = range_bounds(F, rr[2][1])
+        if inner is None:
+            return None
+        sub = _slice_reach(F, rr[2][0], ('RangeFrom', inner[1], None) if inner[1] is not None else ('RangeTo', None, ('const', '0')))
+        if sub is None:
+            return None
+        rr, base = sub
+    kind, st, en = rng
+    if kind in ('Range', 'RangeTo'):
+        pos = _lin_c(F, en)
+    elif kind == 'RangeFrom':
+        pos = _lin_c(F, st)
+    elif kind in ('RangeInclusive', 'RangeToInclusive'):
+        pos = add(_lin_c(F, en), ({}, 1))
+    else:
+        return (rr, base)
+    if kind in ('Range', 'RangeTo', 'RangeInclusive', 'RangeToInclusive') and rr is not _canon_root(r) and base != ({}, 0):
+        return (rr, add(base, pos))
+    return (rr, add(base, pos) if base != ({}, 0) else pos)
+
+
+@rule('R03.14', ['C03', 'C20', 'C12'], floor=7, clause='6LoWPAN decompression writes into the reassembly / decompression buffer only inside what it compared with that buffer\'s length: every range `buffer[..n]`, `buffer[a..][..n]`, `buffer[a..]` cut from the output buffer in decompress_udp, decompress_ext_hdr and sixlowpan_to_ipv6 is dominated by a test `m <= buffer.len()` with m >= a + n term by term; the fixed 40-octet IPv6 header is split off only for datagram sizes tested >= 40')
+def r03_14(ctx):
+    F = ctx.F
+    fns = [k for k in F.bodies if k.startswith('iface::interface::sixlowpan::') and '{closure' not in k and
+           (k.endswith('::decompress_udp') or k.endswith('::decompress_ext_hdr') or k.endswith('::sixlowpan_to_ipv6'))]
+    ctx.need(len(fns) == 3, f"decompress_udp, decompress_ext_hdr, sixlowpan_to_ipv6 (found {len(fns)})")
+    n = 0
+    for k in fns:
+        b = F.bodies[k]
+        short = k.rsplit('::', 1)[-1]
+        guards = []
+        for bi, bl in enumerate(b.blocks):
+            if bl['cl'] or bl['t'][0] != 'switch':
+                continue
+            for tb, lab, f in cond_facts(F, b, bi):
+                if f[0] != 'rel' or f[1] not in ('Le', 'Lt', 'Ge', 'Gt'):
+                    continue
+                for lenside, other, ops in ((f[3], f[2], ('Le', 'Lt')), (f[2], f[3], ('Ge', 'Gt'))):
+                    ls = strip(simplify(lenside))
+                    if f[1] in ops and is_call(ls, '::len', nargs=1):
+                        guards.append(((bi, tb, lab), _canon_root(ls[2][0]), _lin_c(F, other)))
+        for x in b.calls():
+            cn = b.callee_name(x[1]) or ''
+            if not re.search(r'IndexMut<.*>::index_mut$', cn) or len(x[2]) != 2:
+                continue
+            if b.locals[x[3][0]]['ty'] not in ('&mut [u8]',):
+                continue
+            at = len(b.blocks[x[0]]['s'])
+            recv = simplify(F.origin.operand(b, x[2][0], x[0], at))
+            rng = range_bounds(F, simplify(F.origin.operand(b, x[2][1], x[0], at)))
+            if rng is None or rng[0] == 'RangeFull':
+                continue
+            sr = _slice_reach(F, recv, rng)
+            n += 1
+            if sr is None:
+                ctx.need(False, f"bounds of the slice cut at {short}:{b.block_line(x[0])}")
+            root, reach = sr
+            okg = False
+            for e, groot, m in guards:
+                if groot != root or x[0] in b.reachable(cut_edges={e}):
+                    continue
+                diff = dict(m[0])
+                for kk, v in reach[0].items():
+                    diff[kk] = diff.get(kk, 0) - v
+                if all(v >= 0 for v in diff.values()) and m[1] - reach[1] >= 0:
+                    okg = True
+                    break
+            if okg:
+                ctx.ok((short, 'slice within tested length', x[0]), sample=dict(fn=short, line=b.block_line(x[0]), reach=f"{' + '.join(show(a)[:40] for a in reach[0])} + {reach[1]}"))
+            else:
+                ctx.bad(f"{short}|output-slice-beyond-tested-length|{'+'.join(sorted(show(a)[:30] for a in reach[0]))}+{reach[1]}",
+                        f"{short} cuts the output buffer at a position (`{' + '.join(show(a)[:50] for a in reach[0]) or '0'} + {reach[1]}`) that no dominating test compared with the buffer's length: "
+                        "the reassembly buffer is only as long as the datagram size announced by the first fragment, so a frame from the network makes the slice index panic", body=b, bb=x[0])
+    ctx.need(n >= 6, f"range cuts of the output buffer in the 6LoWPAN decompression functions (found {n})")
+    # the 40-octet split
+    pf = [F.bodies[k] for k in F.bodies if k.endswith('::process_sixlowpan_fragment') and '{closure' not in k]
+    if pf:
+        b = pf[0]
+        sites = [x[0] for x in b.calls() if (b.callee_name(x[1]) or '').endswith('::add_with') or (b.callee_name(x[1]) or '').endswith('::set_total_size')]
+        ctx.need(sites, "set_total_size / add_with in process_sixlowpan_fragment")
+        ge40 = lambda f: f[0] == 'rel' and f[1] in ('Ge', 'Gt') and is_call(strip(f[2]), '::datagram_size') and (const_of(strip(f[3])) or 0) >= (40 if f[1] == 'Ge' else 39)
+        bad = unguarded(F, b, sites, ge40)
+        if bad:
+            ctx.bad("process_sixlowpan_fragment|datagram-size-below-ipv6-header", "a FRAG1 announcing a datagram size below 40 reaches the decompressor, which splits a 40-octet IPv6 header off a "
+                    "buffer of the announced size (split_at_mut panics)", body=b, bb=bad[0][0], path=bad[0][1])
+        else:
+            ctx.ok(('process_sixlowpan_fragment', 'datagram_size >= 40'), sample=dict(fn='process_sixlowpan_fragment', guard='datagram_size() >= 40'))
